@@ -257,3 +257,13 @@ Definition subset_b (xs ys : list entry) : bool :=
 
 Definition front_eq_b (a : archive) (cs : list entry) : bool :=
   subset_b a (pareto_front cs) && subset_b (pareto_front cs) a.
+
+(* ---- candidates created by evaluating a model at an action set ----
+   The explorer only ever creates entries as Compress(model) = (values of the model at its current
+   action set, that action set).  [eval] is the valuation function (the concrete one is C01's);
+   a stream is a list of (forced?, action set). *)
+Definition eval_entry (eval : list bool -> list Q) (s : list bool) : entry := mkE (eval s) s.
+Definition eval_op (eval : list bool -> list Q) (k : bool * list bool) : op :=
+  if fst k then OfferForce (eval_entry eval (snd k)) else Offer (eval_entry eval (snd k)).
+Definition eval_ops (eval : list bool -> list Q) (ks : list (bool * list bool)) : list op :=
+  map (eval_op eval) ks.
